@@ -137,6 +137,8 @@ pub fn gen(ctx: &mut Ctx, idx: u64) -> (RunSpec, Cfg) {
     let mut ch = Chooser::new(seed, "c08");
     let m = ctx.models.get(&fx);
     let entry = if ch.chance(1, 4) { Entry::Auto } else { Entry::own(fx.format) };
+    // the `Sheets` wrapper has `worksheet_range_ref` for all four formats
+    let ref_ok = fx.format.is_lazy() || entry == Entry::Auto;
     let cfg = match ch.below(10) {
         0..=4 => Cfg::A,
         5..=6 => Cfg::B,
@@ -158,11 +160,11 @@ pub fn gen(ctx: &mut Ctx, idx: u64) -> (RunSpec, Cfg) {
                 let c = candidates(&mut ch, d);
                 let h = if ch.chance(1, 6) { None } else { Some(*ch.pick(&c)) };
                 ops.push(Op::SetHeader(h));
-                ops.push(if fx.format.is_lazy() && ch.chance(1, 3) { Op::RangeRef(SheetArg::Idx(target)) } else { Op::Range(SheetArg::Idx(target)) });
+                ops.push(if ref_ok && ch.chance(1, 3) { Op::RangeRef(SheetArg::Idx(target)) } else { Op::Range(SheetArg::Idx(target)) });
             }
             40..=64 => ops.push(Op::Range(SheetArg::Idx(target))),
-            65..=71 if fx.format.is_lazy() => ops.push(Op::RangeRef(SheetArg::Idx(target))),
-            72..=74 if fx.format.is_lazy() => ops.push(Op::RangeAtRef(target)),
+            65..=71 if ref_ok => ops.push(Op::RangeRef(SheetArg::Idx(target))),
+            72..=74 if ref_ok => ops.push(Op::RangeAtRef(target)),
             65..=74 => ops.push(Op::RangeAt(target)),
             75..=78 => ops.push(Op::Formula(SheetArg::Idx(ch.below(nsheets.max(1) as u64) as usize))),
             79..=81 => ops.push(Op::Worksheets),
